@@ -66,6 +66,7 @@ def runCase (c : Case) : List String :=
   | "share" => ShareS.runShareCase c.id c.field c.events
   | "multi" => MultiS.runMultiCase c.id ((c.field "pipe").headD (.atom "")) c.events
   | "locks" => LocksS.runLocksCase c.id (c.field "subs") c.events
+  | "behaviorrace" => LocksS.runBehaviorRace c.id c.events
   | s => [s!"{c.id}.0 UNKNOWN-SUITE {s}"]
 
 partial def loop (h : IO.FS.Stream) (out : IO.FS.Stream) (cur : Case) : IO Unit := do
